@@ -624,8 +624,13 @@ REJECT = [
     ('ival: this.quiet', 'unobservable property'), ('ival: { let p = a; return p.quiet }', 'unobservable property'),
     ('ival: { let p = a.next; return p.quiet }', 'unobservable property'), ('flag: a.flag && a.quiet > 0', 'unobservable property'),
     ('ival: (a.flag ? a : b).quiet', 'unobservable property'),
+    # a NOTIFY signal that cannot be resolved (first parameter of another type and no nullary overload / no such signal):
+    # the property cannot be observed, so a binding that reads it must be rejected, not generated without a connection
+    ('ival: a.odd', "invalid notify signal 'oddChanged'"), ('ival: a.lost', "invalid notify signal 'lostChanged'"),
+    ('ival: a.next.odd + 1', "invalid notify signal 'oddChanged'"), ('ival: { let p = a.next; return p.lost }', "invalid notify signal 'lostChanged'"),
+    ('flag: a.flag || a.odd > 0', "invalid notify signal 'oddChanged'"), ('ival: this.lost', "invalid notify signal 'lostChanged'"),
 ]
-ACCEPT = ['ival: a.cval', 'ival: a.next.cval + cval', 'ival: { let p = a.next; return p.cval }']
+ACCEPT = ['ival: a.cval', 'ival: a.next.cval + cval', 'ival: { let p = a.next; return p.cval }', 'odd: a.ival', 'lost: a.ival + 1']
 
 
 def rejection_side(su):
